@@ -560,6 +560,13 @@ impl World {
             let d = format!("node {n}: persisted {} >= unstable offset {} after {}", p.persisted, p.unst_offset, kind_name(c.kind));
             return Err(self.violation("C14", "C14.pointers", n, d, "persisted_ge_offset".into()));
         }
+        {
+            let node = &self.nodes[&n];
+            if p.persisted > node.disk.model.last_index() {
+                let d = format!("node {n}: persisted index {} is beyond the last index {} of its stable storage after {}", p.persisted, node.disk.model.last_index(), kind_name(c.kind));
+                return Err(self.violation("C14", "C14.pointers", n, d, "persisted_beyond_storage".into()));
+            }
+        }
         // "the persisted index never exceeds what stable storage holds with matching terms": where both the
         // logical log (pending snapshot included) and the storage know the term at `persisted`, they agree
         {
